@@ -71,4 +71,5 @@ a36e732 C03
 d9b8bd6 C15
 c102342 C03
 32170f7 C07
+076191e C01
 LIST
